@@ -39,7 +39,41 @@ class OutOfReach(ToolTrouble):
     pass
 
 
+# ---- rename following: lib/names.json holds, per unit and function key, the (kind, identifier) list of parameters and bindings
+# that the contract text was written against (recorded on the pinned tree with `lib/dev.py --record-names`). vx compares it with the
+# current function; if only identifiers differ (same kinds in the same order, consistent injective mapping) it translates the
+# anchors and returns the map, and emit_fn lets clause and proof text follow the renamed locals.
+NAMES_FILE = os.path.join(VERIF, "lib", "names.json")
+_NAMES = None
+RECORDED = {}
+
+
+def _names():
+    global _NAMES
+    if _NAMES is None:
+        try:
+            with open(NAMES_FILE) as f:
+                _NAMES = json.load(f)
+        except Exception:
+            _NAMES = {}
+    return _NAMES
+
+
+def _caller_unit():
+    import inspect
+    for fr in inspect.stack()[2:6]:
+        n = fr.frame.f_globals.get("NAME")
+        if isinstance(n, str):
+            return n
+    return "?"
+
+
 def run_vx(items):
+    unit_name = _caller_unit()
+    reg = _names().get(unit_name, {})
+    for it in items:
+        if it.get("kind") in ("fn", "impl_fn") and it["key"] in reg and "expect_names" not in it:
+            it["expect_names"] = reg[it["key"]]
     os.makedirs(OUT, exist_ok=True)
     job = {"repo": REPO, "items": items}
     path = os.path.join(OUT, f"vxjob.{os.getpid()}.{threading.get_ident()}.{time.time_ns()}.json")
@@ -57,7 +91,21 @@ def run_vx(items):
         if not r["ok"]:
             raise OutOfReach(f"extraction of `{r['key']}` from {r['file']} failed: {r['error']}")
         out[r["key"]] = r
+        if r.get("kind") in ("fn", "impl_fn"):
+            RECORDED.setdefault(unit_name, {})[r["key"]] = r.get("names", [])
     return out
+
+
+def follow_renames(text, rename):
+    """identifiers of `rename` (whole words, code part of each line only) are replaced by the current names"""
+    if not rename or not text:
+        return text
+    pat = re.compile(r"\b(" + "|".join(re.escape(k) for k in sorted(rename, key=len, reverse=True)) + r")\b")
+    out = []
+    for ln in text.split("\n"):
+        code, sep, comment = ln.partition("//")
+        out.append(pat.sub(lambda m: rename[m.group(1)], code) + sep + comment)
+    return "\n".join(out)
 
 
 def vx_list(relpath):
@@ -174,6 +222,15 @@ def emit_fn(item, contract, mode="verify", vacuity=False, extra_auto=None, inden
     mode: "verify" (real body) | "external" (same signature + contract, body trusted)
     """
     key = contract.key
+    rename = item.get("rename") or {}
+    if rename and not getattr(contract, "_renamed", False):
+        for c in contract.all_clauses():
+            c.text = follow_renames(c.text, rename)
+        for lp in contract.loops:
+            if lp["decreases"]:
+                lp["decreases"] = follow_renames(lp["decreases"], rename)
+        contract.proof = {k: follow_renames(v, rename) for k, v in contract.proof.items()}
+        contract._renamed = True
     lines = []
     lines.append(f"// @fn-begin:{key} src={item['file']}:{item['line_start']}-{item['line_end']} mode={mode}")
     attrs = list(contract.attrs)
